@@ -1,8 +1,10 @@
-import FalconModel.RouterHist
+import FalconModel.RouterLazy
 import Std.Data.HashMap
 /-! C01 line-protocol driver: a whole router history.  `add` runs `Ri.insert true` (the repaired `add_route`), `find` runs
     `Rt.runFinder` (codegen + big-step semantics of the generated code) and `Rt.runSpec` (the depth-first walk) on
-    `Rh.toNodes` of that tree.  `re` / converter behaviour is table-fed, keyed by pattern text / converter spec id, so
+    `Rh.toNodes` of that tree.  The router is the lazy-compile machine `Rl.Router`: `add … <flag>` is `Rl.addSegs`, `find` is
+    `Rl.find` (the executed finder runs on the tree snapshot taken at compile time; the walk on the current tree).
+    `validate <hex template>` runs the native template parser/validator `Rv.validate` (converter facts via `known`/`inst`).  `re` / converter behaviour is table-fed, keyed by pattern text / converter spec id, so
     nothing of the real router's private state enters the model. -/
 open Rt Ri Rh
 
@@ -21,17 +23,22 @@ structure SegDef where
   kind : Kind
   specs : List Nat          -- converter spec ids, in the order of the node's converter uses
 
-structure St where
-  roots : List Tree := []
-  defs : Std.HashMap Nat SegDef := {}
-  byRaw : Std.HashMap String (List Nat) := {}
-  pm : Std.HashMap (String × String) Dict := {}
-  cv : Std.HashMap (Nat × String) String := {}
-  -- derived from `roots` after every `add`
+structure Derived where
   nodes : List Node := []
   pats : Array String := #[]
   convs : Array Nat := #[]
   rvs : Array Nat := #[]
+
+structure St where
+  router : Rl.Router := {}
+  known : Std.HashMap String Bool := {}                      -- registered converter name -> consumes multiple segments
+  instT : Std.HashMap (String × Option String) Bool := {}    -- (cname, argstr) -> instantiation does not raise
+  defs : Std.HashMap Nat SegDef := {}
+  byRaw : Std.HashMap String (List Nat) := {}
+  pm : Std.HashMap (String × String) Dict := {}
+  cv : Std.HashMap (Nat × String) String := {}
+  cur : Derived := {}                 -- derived from `router.roots` after every `add`
+  snapD : Option Derived := none      -- cache: derived from `router.compiled` (the tree the finder was compiled from)
 
 partial def parseConvs : Nat → List String → List ConvUse × List Nat
   | n+1, f :: m :: sp :: t => let (cs, ss) := parseConvs n t; ({ field := unhex f, multi := m == "1" } :: cs, sp.toNat! :: ss)
@@ -68,17 +75,35 @@ def St.kinds (s : St) : Nat → String × Kind := fun id =>
   | some d => (d.raw, d.kind)
   | none => ("?", .lit)
 
-def St.refresh (s : St) : St :=
+def St.derive (s : St) (roots : List Tree) : Derived :=
   let k := s.kinds
-  let nodes := toNodes k s.roots
+  let nodes := toNodes k roots
   let key : Tree → Nat := fun t => match (k t.seg.raw).2 with | .lit => 0 | .complex .. => 1 | .simple .. => 2
-  { s with nodes := nodes, pats := (patsOf nodes).toArray,
-           convs := (convsOf (fun r => (s.byRaw[r]?).getD []) nodes).toArray,
-           rvs := (rvsOf key s.roots).toArray }
+  { nodes := nodes, pats := (patsOf nodes).toArray,
+    convs := (convsOf (fun r => (s.byRaw[r]?).getD []) nodes).toArray,
+    rvs := (rvsOf key roots).toArray }
 
-def St.tables (s : St) : Tables :=
-  { pmatch := fun i seg => match s.pats[i]? with | some t => s.pm[(t, seg)]? | none => none,
-    conv := fun i f => match s.convs[i]? with | some sp => s.cv[(sp, f)]? | none => none }
+def St.tables (s : St) (d : Derived) : Tables :=
+  { pmatch := fun i seg => match d.pats[i]? with | some t => s.pm[(t, seg)]? | none => none,
+    conv := fun i f => match d.convs[i]? with | some sp => s.cv[(sp, f)]? | none => none }
+
+def St.cenv (s : St) : Rv.Cenv :=
+  { known := fun n => s.known.contains (String.ofList n),
+    inst := fun n a => (s.instT[(String.ofList n, a.map String.ofList)]?).getD false,
+    multi := fun n => (s.known[String.ofList n]?).getD false }
+
+def hexL (l : Rv.Str) : String := toHexS (String.ofList l)
+def hexO : Option Rv.Str → String | none => "~" | some l => hexL l
+
+def showRec (r : Rv.SegRec) : String :=
+  let b := fun (x : Bool) => if x then "1" else "0"
+  s!"{hexL r.raw} {b r.isVar}{b r.isComplex}{b r.cpc} {hexL r.shape} {if r.isComplex then hexL (Rv.patText r.raw) else "~"} " ++
+  "F[" ++ ",".intercalate (r.fields.map hexL) ++ "] C[" ++
+  ",".intercalate (r.convs.map fun c => s!"{hexL c.1}:{hexL c.2.1}:{hexO c.2.2}") ++ "]"
+
+def showRej : Rv.Rej → String
+  | .whitespace => "whitespace" | .identifier => "identifier" | .duplicate => "duplicate"
+  | .missingConv => "missing_conv" | .unknownConv => "unknown_conv" | .badConvArgs => "bad_conv_args"
 
 partial def parsePairs : List String → Dict
   | k :: v :: t => (unhex k, unhex v) :: parsePairs t
@@ -106,17 +131,38 @@ def step (s : St) (line : String) : St × String :=
       let d : SegDef := { seg := sg, raw := unhex raw, kind := k, specs := specs }
       ({ s with defs := s.defs.insert id.toNat! d, byRaw := s.byRaw.insert d.raw specs }, "ok")
     | _, _ => (s, "bad-op")
-  | ["add", route, ids] =>
+  | "add" :: route :: ids :: fl =>
     let path := (ids.splitOn ";").filterMap fun i => (s.defs[i.toNat!]?).map (·.seg)
-    let (roots', ok) := insert true route.toNat! path s.roots
-    let s' := ({ s with roots := roots' } : St).refresh
-    (s', (if ok then "ok " else "rej ") ++ " ".intercalate (roots'.map dump))
+    let (r', ok) := Rl.addSegs s.router route.toNat! path (fl == ["1"])
+    let cur := s.derive r'.roots
+    -- the cache follows `compiled`: an accepted call either recompiled (flag) or reset it; a rejected call left it alone
+    let snapD := if ok then r'.compiled.map (fun _ => cur) else s.snapD
+    ({ s with router := r', cur := cur, snapD := snapD }, (if ok then "ok " else "rej ") ++ " ".intercalate (r'.roots.map dump))
+  | ["known", name, m] => ({ s with known := s.known.insert (unhex name) (m == "1") }, "ok")
+  | ["inst", name, args, v] =>
+    ({ s with instT := s.instT.insert (unhex name, if args == "~" then none else some (unhex args)) (v == "1") }, "ok")
+  | ["validate", t] =>
+    match Rv.validate s.cenv (unhex t).toList with
+    | .error k => (s, "rej " ++ showRej k)
+    | .ok recs => (s, "ok " ++ " | ".intercalate (recs.map showRec))
+  | ["addfresh", t] =>       -- the verdict of `add_route(t)` on an EMPTY router (validation ; insert)
+    match (Rv.addRoute s.cenv 0 (unhex t).toList []).2 with
+    | .ok => (s, "ok")
+    | .rej k => (s, "rej " ++ showRej k)
+    | .rejInsert => (s, "rej insert")
+  | ["kwlist"] => (s, " ".intercalate (Rv.kwlist.map String.ofList))
+  | ["wstable"] =>
+    (s, " ".intercalate (((List.range 0x110000).filter fun n => (n < 0xD800 || n > 0xDFFF) && Rv.isSpace (Char.ofNat n)).map toString))
   | "pat" :: text :: seg :: t => ({ s with pm := s.pm.insert (unhex text, unhex seg) (parsePairs t) }, "ok")
   | ["conv", sp, f, v] => ({ s with cv := s.cv.insert (sp.toNat!, unhex f) (unhex v) }, "ok")
   | "find" :: segs =>
     let path := segs.map unhex
-    (s, "E " ++ showOut s.rvs (runFinder s.tables s.nodes path) ++ " S " ++ showRes s.rvs (runSpec s.tables s.nodes path))
-  | ["src"] => (s, toHexS (finderSrc s.nodes))
+    -- `tb snapshot`, served from the cache kept in step with `router.compiled`
+    let snapD := s.snapD.getD s.cur
+    let (r', out) := Rl.find s.kinds (fun _ => s.tables snapD) s.router path
+    ({ s with router := r', snapD := some snapD },
+     "E " ++ showOut snapD.rvs out ++ " S " ++ showRes s.cur.rvs (runSpec (s.tables s.cur) s.cur.nodes path))
+  | ["src"] => (s, toHexS (finderSrc s.cur.nodes))
   | _ => (s, "bad-op")
 
 partial def loop (h : IO.FS.Stream) (s : St) : IO Unit := do
